@@ -869,8 +869,9 @@ mod verif_impl {
                     Some(Reverse(t)) if *t == partition.last_read => (),
                     other => {
                         return Err(format!(
-                            "access_priority of {name} is {other:?}, last_read is {:?}",
-                            partition.last_read
+                            "access_priority of {name} is {:?}, last_read is {:?}",
+                            other.map(|Reverse(t)| offset_of(*t)),
+                            offset_of(partition.last_read)
                         ))
                     }
                 }
@@ -878,8 +879,9 @@ mod verif_impl {
                     Some(Reverse(t)) if *t == partition.next_expiry => (),
                     other => {
                         return Err(format!(
-                            "expiry_priority of {name} is {other:?}, next_expiry is {:?}",
-                            partition.next_expiry
+                            "expiry_priority of {name} is {:?}, next_expiry is {:?}",
+                            other.map(|Reverse(t)| offset_of(*t)),
+                            offset_of(partition.next_expiry)
                         ))
                     }
                 }
@@ -912,8 +914,9 @@ mod verif_impl {
                     None => return Err(format!("{name}: partition without records")),
                     Some(m) if m != partition.next_expiry => {
                         return Err(format!(
-                            "{name}: next_expiry is {:?}, earliest record expiry is {m:?}",
-                            partition.next_expiry
+                            "{name}: next_expiry is {:?}, earliest record expiry is {:?}",
+                            offset_of(partition.next_expiry),
+                            offset_of(m)
                         ))
                     }
                     _ => (),
